@@ -787,8 +787,8 @@ class StubsStringGenerator:
 
             if len(type_data["types"]) == 2 and literal_data:
                 # If we have a LiteralType and a None we combine them to a "Literal[..., null]"
-                has_none = (type_data["types"][0]["kind"] == "NamedType" and type_data["types"][0]["kind"]) or (
-                    type_data["types"][1]["kind"] == "NamedType" and type_data["types"][1]["kind"]
+                has_none = any(
+                    type_["kind"] == "NamedType" and type_["qname"] == "builtins.None" for type_ in type_data["types"]
                 )
                 if has_none:
                     _types = type_data["types"]
